@@ -58,7 +58,8 @@ type fullReq struct {
 	task           *simkit.Task
 	cancel         context.CancelFunc
 	// yieldWoken: when this request's producer is woken from the wait for space, it parks before re-taking the queue
-	// mutex and continues as an event of its own (the other order - the producer first - is the unparked one)
+	// mutex and continues as an event of its own (so the consumer that woke it always runs on first; the release may
+	// be the very next event)
 	yieldWoken bool
 }
 
@@ -414,7 +415,7 @@ func (s *fullSim) offer() {
 	s.reqs = append(s.reqs, q)
 	s.given += int64(len(q.items))
 	s.r.Logf("  request %d: %d items", q.n, len(q.items))
-	q.yieldWoken = s.cfg.Block && s.r.Tape.Chance(1, 2)
+	q.yieldWoken = s.cfg.Block // always: left unparked, producer-vs-consumer after a wake-up is a race the tape does not decide
 	ctx, cancel := context.WithCancel(context.WithValue(context.Background(), fullProdKey{}, q))
 	q.cancel = cancel
 	q.task = simkit.Go(fmt.Sprintf("req%d", q.n), func(t *simkit.Task) { t.Err = s.exp.Consume(ctx, payload) })
